@@ -18,6 +18,7 @@
 (*   write   {f, o, bytes}             writefail {o, k, ok}                *)
 (*   parse   {h, f}                    q       {h, q, got}                 *)
 (*   sig     {h, sig, got}             typed   {h, levels, got}            *)
+(*   text    {h, text, got}            (text = a printed canonical trace)  *)
 (*   begin   {i, h, frame}             next    {i, got}                    *)
 (***************************************************************************)
 EXTENDS Integers, Sequences, FiniteSets, TLC, TLCExt, Json, IOUtils,
@@ -60,6 +61,7 @@ DAnswerOf(idx, q, p) == Answer(idx, q, p)
 DSigOf(idx, s) == Deobfuscate(idx, s)
 DSigConstrained(s) == ValidDescriptor(s)
 DTypedOf(idx, levels) == TypedRemap(idx, levels)
+DTextOf(idx, text) == RemapText(idx, text)
 DBeginOf(idx, frame, p) == Begin(idx, frame, p)
 DStepOf(it) == IterNext(it)
 DWrittenOk(src, w) == WellFormed(w) /\ SameIndex(Content(w), DIndexOf(src))
@@ -69,7 +71,7 @@ VARIABLES l, objs, handles, files, iters
 S == INSTANCE System WITH
        SectionOf <- DSectionOf, RangeOk <- DRangeOk, IndexOf <- DIndexOf, InDomainOf <- DInDomainOf,
        MetaOf <- DMetaOf, UuidOf <- DUuidOf, AnswerOf <- DAnswerOf, SigOf <- DSigOf,
-       SigConstrained <- DSigConstrained, TypedOf <- DTypedOf, BeginOf <- DBeginOf, StepOf <- DStepOf,
+       SigConstrained <- DSigConstrained, TypedOf <- DTypedOf, TextOf <- DTextOf, BeginOf <- DBeginOf, StepOf <- DStepOf,
        WrittenOk <- DWrittenOk
 
 tvars == <<l, objs, handles, files, iters>>
@@ -93,6 +95,7 @@ TraceNext ==
   \/ Is("q") /\ S!Query(Ev.h, Ev.q, Ev.got)
   \/ Is("sig") /\ S!Sig(Ev.h, Ev.sig, Ev.got)
   \/ Is("typed") /\ S!Typed(Ev.h, Ev.levels, Ev.got)
+  \/ Is("text") /\ S!Text(Ev.h, Ev.text, Ev.got)
   \/ Is("begin") /\ S!IterBegin(Ev.i, Ev.h, Ev.frame)
   \/ Is("next") /\ S!IterNextCall(Ev.i, Ev.got)
   \/ (l > N /\ UNCHANGED tvars)
